@@ -273,4 +273,405 @@ theorem pStr_strBytes (c : Cfg) (k : Str) (s : Bytes) (hk : k.wf = true) :
   · obtain ⟨e, he⟩ := pStr_escBody c.ascii k.cs s
     exact ⟨e, rfl, by simpa using he⟩
 
+
+/-! ## read-back of printed values -/
+
+
+mutual
+  def need : V → Nat
+    | .arr (x :: xs) => 1 + need x + needRest xs
+    | .obj ((_, x) :: fs) => 2 + need x + needFields fs
+    | _ => 1
+  def needRest : List V → Nat
+    | [] => 1
+    | x :: xs => 1 + need x + needRest xs
+  def needFields : List (Str × V) → Nat
+    | [] => 1
+    | (_, x) :: fs => 2 + need x + needFields fs
+end
+
+/-- the printer's number re-spelling keeps number tokens number tokens -/
+def FmtOK (c : Cfg) : Prop := ∀ l, validNum l = true → validNum (c.fmt l) = true
+
+def TailOK (rest : Bytes) : Prop := ∀ b r, rest = b :: r → isNumChar b = false
+
+theorem numChar_facts (b : UInt8) (h : isNumChar b = true) :
+    (b == 0x5b) = false ∧ (b == 0x7b) = false ∧ (b == 0x22) = false ∧ (b == 0x6e) = false ∧
+    (b == 0x74) = false ∧ (b == 0x66) = false ∧ (b == 0x5d) = false ∧ (b == 0x7d) = false := by
+  revert h; revert b
+  apply u8_forall
+  decide +kernel
+
+theorem validNum_cons (s : Bytes) (h : validNum s = true) : ∃ b t, s = b :: t ∧ isNumChar b = true := by
+  cases s with
+  | nil => simp [validNum] at h
+  | cons b t =>
+    have := validNum_numChars _ h
+    simp only [List.all_cons, Bool.and_eq_true] at this
+    exact ⟨b, t, rfl, this.1⟩
+
+/-- every printed value starts with a byte that is not whitespace and not a closing bracket -/
+theorem render_cons (c : Cfg) (hf : FmtOK c) (lvl : Nat) (v : V) (hv : v.wf = true) :
+    ∃ b t, render c lvl v = b :: t ∧ isWs b = false ∧ (b == 0x5d) = false ∧ (b == 0x7d) = false := by
+  cases v with
+  | null => exact ⟨0x6e, [0x75, 0x6c, 0x6c], by simp [render], by decide, by decide, by decide⟩
+  | bool b =>
+    cases b
+    · exact ⟨0x66, [0x61, 0x6c, 0x73, 0x65], by simp [render], by decide, by decide, by decide⟩
+    · exact ⟨0x74, [0x72, 0x75, 0x65], by simp [render], by decide, by decide, by decide⟩
+  | num l =>
+    obtain ⟨b, t, h1, h2⟩ := validNum_cons _ (hf l (by simpa [V.wf] using hv))
+    have := numChar_facts b h2
+    exact ⟨b, t, by simp [render, h1], numChar_not_ws b h2, this.2.2.2.2.2.2.1, this.2.2.2.2.2.2.2⟩
+  | str s =>
+    by_cases hh : (!c.ascii && !s.esc) = true
+    · exact ⟨0x22, rawBody s.cs ++ [0x22], by simp only [render, strBytes, hh, if_true], by decide, by decide, by decide⟩
+    · exact ⟨0x22, escBody c.ascii s.cs ++ [0x22], by simp only [render, strBytes, hh]; rfl, by decide, by decide, by decide⟩
+  | arr xs =>
+    cases xs with
+    | nil => exact ⟨0x5b, [0x5d], by simp [render], by decide, by decide, by decide⟩
+    | cons x xs => exact ⟨0x5b, _, by rw [render], by decide, by decide, by decide⟩
+  | obj fs =>
+    cases fs with
+    | nil => exact ⟨0x7b, [0x7d], by simp [render], by decide, by decide, by decide⟩
+    | cons f fs => obtain ⟨k, x⟩ := f; exact ⟨0x7b, _, by rw [render], by decide, by decide, by decide⟩
+
+theorem skipWs_render (c : Cfg) (hf : FmtOK c) (lvl : Nat) (v : V) (hv : v.wf = true) (s : Bytes) :
+    skipWs (render c lvl v ++ s) = render c lvl v ++ s := by
+  obtain ⟨b, t, h, hw, _, _⟩ := render_cons c hf lvl v hv
+  rw [h]; exact skipWs_cons_nonws b _ hw
+
+
+
+theorem tailOK_ws_close (g : Bytes) (hg : g.all isWs = true) (b : UInt8) (hb : isNumChar b = false) (rest : Bytes) :
+    TailOK (g ++ b :: rest) := by
+  intro b' r h
+  cases g with
+  | nil => simp at h; rw [← h.1]; exact hb
+  | cons w g' =>
+    simp only [List.cons_append, List.cons.injEq] at h
+    simp only [List.all_cons, Bool.and_eq_true] at hg
+    rw [← h.1]
+    cases hn : isNumChar w with
+    | false => rfl
+    | true => have := numChar_not_ws w hn; rw [hg.1] at this; cases this
+
+theorem tailOK_rest (c : Cfg) (l : Nat) (xs : List V) (g : Bytes) (hg : g.all isWs = true) (rest : Bytes) :
+    TailOK (renderRest c l xs ++ (g ++ 0x5d :: rest)) := by
+  cases xs with
+  | nil => simpa [renderRest] using tailOK_ws_close g hg 0x5d (by decide) rest
+  | cons x xs => intro b r h; simp [renderRest] at h; rw [← h.1]; decide
+
+theorem tailOK_fields (c : Cfg) (l : Nat) (fs : List (Str × V)) (g : Bytes) (hg : g.all isWs = true) (rest : Bytes) :
+    TailOK (renderFields c l fs ++ (g ++ 0x7d :: rest)) := by
+  cases fs with
+  | nil => simpa [renderFields] using tailOK_ws_close g hg 0x7d (by decide) rest
+  | cons f fs => obtain ⟨k, x⟩ := f; intro b r h; simp [renderFields] at h; rw [← h.1]; decide
+
+/-! unfolding of the reader on the shapes the printer produces -/
+
+theorem pValue_null (f : Nat) (r : Bytes) : pValue false (f + 1) (0x6e :: 0x75 :: 0x6c :: 0x6c :: r) = .ok (.null, r) := by
+  rw [pValue.eq_def]; rfl
+theorem pValue_true (f : Nat) (r : Bytes) : pValue false (f + 1) (0x74 :: 0x72 :: 0x75 :: 0x65 :: r) = .ok (.bool true, r) := by
+  rw [pValue.eq_def]; rfl
+theorem pValue_false (f : Nat) (r : Bytes) :
+    pValue false (f + 1) (0x66 :: 0x61 :: 0x6c :: 0x73 :: 0x65 :: r) = .ok (.bool false, r) := by
+  rw [pValue.eq_def]; rfl
+
+theorem pValue_num (f : Nat) (tok rest : Bytes) (ht : validNum tok = true) (hr : TailOK rest) :
+    pValue false (f + 1) (tok ++ rest) = .ok (.num tok, rest) := by
+  obtain ⟨b, t, h1, h2⟩ := validNum_cons tok ht
+  have hf := numChar_facts b h2
+  have htd := takeNum_append tok rest (validNum_numChars tok ht) hr
+  subst h1
+  simp only [List.cons_append] at htd ⊢
+  rw [pValue.eq_def]
+  simp only [hf.1, hf.2.1, hf.2.2.1, hf.2.2.2.1, hf.2.2.2.2.1, hf.2.2.2.2.2.1, h2, htd.1, htd.2, ht,
+    Bool.false_eq_true, ↓reduceIte]
+
+theorem pValue_str (c : Cfg) (f : Nat) (k : Str) (rest : Bytes) (hk : k.wf = true) :
+    pValue false (f + 1) (strBytes c k ++ rest) = .ok (.str ⟨k.cs, false⟩, rest) := by
+  obtain ⟨e, h1, h2⟩ := pStr_strBytes c k rest hk
+  rw [h1, pValue.eq_def]
+  simp only [h2, Bool.false_and]
+  rfl
+
+theorem pValue_arr_nil (f : Nat) (rest : Bytes) : pValue false (f + 1) (0x5b :: 0x5d :: rest) = .ok (.arr [], rest) := by
+  rw [pValue.eq_def]; simp [skipWs, isWs]
+theorem pValue_obj_nil (f : Nat) (rest : Bytes) : pValue false (f + 1) (0x7b :: 0x7d :: rest) = .ok (.obj [], rest) := by
+  rw [pValue.eq_def]; simp [skipWs, isWs]
+
+theorem pValue_arr_cons (f : Nat) (s s2 s3 : Bytes) (b1 : UInt8) (s1 : Bytes) (x : V) (xs : List V)
+    (h0 : skipWs s = b1 :: s1) (hb : (b1 == 0x5d) = false)
+    (h1 : pValue false f (b1 :: s1) = .ok (x, s2)) (h2 : pRest false f s2 = .ok (xs, s3)) :
+    pValue false (f + 1) (0x5b :: s) = .ok (.arr (x :: xs), s3) := by
+  rw [pValue.eq_def]; simp [h0, hb, h1, h2]
+
+theorem pValue_obj_cons (f : Nat) (s s2 s3 : Bytes) (b1 : UInt8) (s1 : Bytes) (kx : Str × V) (fs : List (Str × V))
+    (h0 : skipWs s = b1 :: s1) (hb : (b1 == 0x7d) = false)
+    (h1 : pField false f (b1 :: s1) = .ok (kx, s2)) (h2 : pFields false f s2 = .ok (fs, s3)) :
+    pValue false (f + 1) (0x7b :: s) = .ok (.obj (kx :: fs), s3) := by
+  rw [pValue.eq_def]; simp [h0, hb, h1, h2]
+
+theorem pRest_close (f : Nat) (s s1 : Bytes) (h0 : skipWs s = 0x5d :: s1) : pRest false (f + 1) s = .ok ([], s1) := by
+  rw [pRest.eq_def]; simp [h0]
+
+theorem pRest_comma (f : Nat) (s s1 s2 s3 : Bytes) (x : V) (xs : List V) (h0 : skipWs s = 0x2c :: s1)
+    (h1 : pValue false f (skipWs s1) = .ok (x, s2)) (h2 : pRest false f s2 = .ok (xs, s3)) :
+    pRest false (f + 1) s = .ok (x :: xs, s3) := by
+  rw [pRest.eq_def]; simp [h0, h1, h2]
+
+theorem pFields_close (f : Nat) (s s1 : Bytes) (h0 : skipWs s = 0x7d :: s1) : pFields false (f + 1) s = .ok ([], s1) := by
+  rw [pFields.eq_def]; simp [h0]
+
+theorem pFields_comma (f : Nat) (s s1 s2 s3 : Bytes) (kx : Str × V) (fs : List (Str × V)) (h0 : skipWs s = 0x2c :: s1)
+    (h1 : pField false f (skipWs s1) = .ok (kx, s2)) (h2 : pFields false f s2 = .ok (fs, s3)) :
+    pFields false (f + 1) s = .ok (kx :: fs, s3) := by
+  rw [pFields.eq_def]; simp [h0, h1, h2]
+
+theorem pField_ok (f : Nat) (s0 s1 s2 s3 : Bytes) (cs : List Char) (e : Bool) (x : V)
+    (h0 : pStr s0 = .ok (cs, e, s1)) (h1 : skipWs s1 = 0x3a :: s2)
+    (h2 : pValue false f (skipWs s2) = .ok (x, s3)) :
+    pField false (f + 1) (0x22 :: s0) = .ok ((⟨cs, false⟩, x), s3) := by
+  rw [pField.eq_def]; simp [h0, h1, h2]
+
+
+
+theorem skipWs_colon (c : Cfg) (hf : FmtOK c) (lvl : Nat) (x : V) (hx : x.wf = true) (rest : Bytes) :
+    ∃ s2, skipWs (colon c ++ (render c lvl x ++ rest)) = 0x3a :: s2 ∧ skipWs s2 = render c lvl x ++ rest := by
+  unfold colon
+  cases c.compact
+  · refine ⟨0x20 :: (render c lvl x ++ rest), by simp [skipWs, isWs], ?_⟩
+    rw [show (0x20 : UInt8) :: (render c lvl x ++ rest) = [0x20] ++ (render c lvl x ++ rest) from rfl,
+      skipWs_append_ws _ _ (by decide), skipWs_render c hf lvl x hx]
+  · exact ⟨render c lvl x ++ rest, by simp [skipWs, isWs], skipWs_render c hf lvl x hx rest⟩
+
+theorem pField_render (c : Cfg) (hf : FmtOK c) (f : Nat) (k : Str) (hk : k.wf = true) (x : V) (hx : x.wf = true)
+    (lvl : Nat) (rest : Bytes) (w : V) (hw : pValue false f (render c lvl x ++ rest) = .ok (w, rest)) :
+    ∃ b t, strBytes c k ++ (colon c ++ (render c lvl x ++ rest)) = b :: t ∧ (b == 0x7d) = false ∧ isWs b = false ∧
+      pField false (f + 1) (b :: t) = .ok ((⟨k.cs, false⟩, w), rest) := by
+  obtain ⟨e, h1, h2⟩ := pStr_strBytes c k (colon c ++ (render c lvl x ++ rest)) hk
+  obtain ⟨s2, h3, h4⟩ := skipWs_colon c hf lvl x hx rest
+  refine ⟨0x22, _, h1, by decide, by decide, ?_⟩
+  exact pField_ok f _ _ s2 rest k.cs e w h2 h3 (by rw [h4]; exact hw)
+
+mutual
+  theorem pValue_render (c : Cfg) (hu : c.unit.all isWs = true) (hf : FmtOK c) :
+      ∀ (v : V) (lvl f : Nat) (rest : Bytes), v.wf = true → need v ≤ f → TailOK rest →
+        pValue false f (render c lvl v ++ rest) = .ok (norm (mapNum c.fmt v), rest)
+    | .null, lvl, f, rest, _, hn, _ => by
+      cases f with
+      | zero => simp [need] at hn
+      | succ f => simpa [render, mapNum, norm] using pValue_null f rest
+    | .bool b, lvl, f, rest, _, hn, _ => by
+      cases f with
+      | zero => simp [need] at hn
+      | succ f =>
+        cases b
+        · simpa [render, mapNum, norm] using pValue_false f rest
+        · simpa [render, mapNum, norm] using pValue_true f rest
+    | .num l, lvl, f, rest, hv, hn, ht => by
+      cases f with
+      | zero => simp [need] at hn
+      | succ f =>
+        have := pValue_num f (c.fmt l) rest (hf l (by simpa [V.wf] using hv)) ht
+        simpa [render, mapNum, norm] using this
+    | .str s, lvl, f, rest, hv, hn, _ => by
+      cases f with
+      | zero => simp [need] at hn
+      | succ f =>
+        have := pValue_str c f s rest (by simpa [V.wf] using hv)
+        simpa [render, mapNum, norm] using this
+    | .arr [], lvl, f, rest, _, hn, _ => by
+      cases f with
+      | zero => simp [need] at hn
+      | succ f => simpa [render, mapNum, mapNumList, norm, normList] using pValue_arr_nil f rest
+    | .obj [], lvl, f, rest, _, hn, _ => by
+      cases f with
+      | zero => simp [need] at hn
+      | succ f => simpa [render, mapNum, mapNumFields, norm, normFields] using pValue_obj_nil f rest
+    | .arr (x :: xs), lvl, f, rest, hv, hn, ht => by
+      cases f with
+      | zero => simp [need] at hn
+      | succ f =>
+        have hwf : x.wf = true ∧ wfList xs = true := by simpa [V.wf, wfList] using hv
+        have hn1 : need x ≤ f := by simp [need] at hn; omega
+        have hn2 : needRest xs ≤ f := by simp [need] at hn; omega
+        let rest' := renderRest c (lvl + 1) xs ++ (gap c lvl ++ 0x5d :: rest)
+        obtain ⟨b1, t, hbt, _, hb5d, _⟩ := render_cons c hf (lvl + 1) x hwf.1
+        have h0 : skipWs (gap c (lvl + 1) ++ (render c (lvl + 1) x ++ rest')) = b1 :: (t ++ rest') := by
+          rw [skipWs_gap c hu, skipWs_render c hf _ x hwf.1, hbt]; rfl
+        have h1 : pValue false f (b1 :: (t ++ rest')) = .ok (norm (mapNum c.fmt x), rest') := by
+          have := pValue_render c hu hf x (lvl + 1) f rest' hwf.1 hn1 (tailOK_rest c _ xs _ (gap_ws c hu lvl) rest)
+          rwa [hbt] at this
+        have h2 := pRest_render c hu hf xs (lvl + 1) f (gap c lvl) rest hwf.2 hn2 (gap_ws c hu lvl)
+        have hs : render c lvl (.arr (x :: xs)) ++ rest
+            = 0x5b :: (gap c (lvl + 1) ++ (render c (lvl + 1) x ++ rest')) := by
+          simp [render, rest', List.append_assoc]
+        rw [hs]
+        simp only [mapNum, mapNumList, norm, normList]
+        exact pValue_arr_cons f _ _ _ b1 _ _ _ h0 hb5d h1 h2
+    | .obj ((k, x) :: fs), lvl, f, rest, hv, hn, ht => by
+      cases f with
+      | zero => simp [need] at hn
+      | succ f =>
+        have hwf : (k.wf = true ∧ x.wf = true) ∧ wfFields fs = true := by simpa [V.wf, wfFields] using hv
+        cases f with
+        | zero => simp [need] at hn; omega
+        | succ f' =>
+          have hn1 : need x ≤ f' := by simp [need] at hn; omega
+          have hn2 : needFields fs ≤ f' + 1 := by simp [need] at hn; omega
+          let rest' := renderFields c (lvl + 1) fs ++ (gap c lvl ++ 0x7d :: rest)
+          have hx := pValue_render c hu hf x (lvl + 1) f' rest' hwf.1.2 hn1
+            (tailOK_fields c _ fs _ (gap_ws c hu lvl) rest)
+          obtain ⟨b1, t, hbt, hb7d, hws, hfield⟩ :=
+            pField_render c hf f' k hwf.1.1 x hwf.1.2 (lvl + 1) rest' _ hx
+          have h0 : skipWs (gap c (lvl + 1) ++ (strBytes c k ++ (colon c ++ (render c (lvl + 1) x ++ rest'))))
+              = b1 :: t := by
+            rw [skipWs_gap c hu, hbt]; exact skipWs_cons_nonws b1 t hws
+          have h2 := pFields_render c hu hf fs (lvl + 1) (f' + 1) (gap c lvl) rest hwf.2 hn2 (gap_ws c hu lvl)
+          have hs : render c lvl (.obj ((k, x) :: fs)) ++ rest
+              = 0x7b :: (gap c (lvl + 1) ++ (strBytes c k ++ (colon c ++ (render c (lvl + 1) x ++ rest')))) := by
+            simp [render, rest', List.append_assoc]
+          rw [hs]
+          simp only [mapNum, mapNumFields, norm, normFields]
+          exact pValue_obj_cons (f' + 1) _ _ _ b1 _ _ _ h0 hb7d hfield h2
+  theorem pRest_render (c : Cfg) (hu : c.unit.all isWs = true) (hf : FmtOK c) :
+      ∀ (xs : List V) (l f : Nat) (g rest : Bytes), wfList xs = true → needRest xs ≤ f → g.all isWs = true →
+        pRest false f (renderRest c l xs ++ (g ++ 0x5d :: rest)) = .ok (normList (mapNumList c.fmt xs), rest)
+    | [], l, f, g, rest, _, hn, hg => by
+      cases f with
+      | zero => simp [needRest] at hn
+      | succ f =>
+        simp only [renderRest, List.nil_append, mapNumList, normList]
+        exact pRest_close f _ rest (by rw [skipWs_append_ws g _ hg]; exact skipWs_cons_nonws _ _ (by decide))
+    | x :: xs, l, f, g, rest, hv, hn, hg => by
+      cases f with
+      | zero => simp [needRest] at hn
+      | succ f =>
+        have hwf : x.wf = true ∧ wfList xs = true := by simpa [wfList] using hv
+        have hn1 : need x ≤ f := by simp [needRest] at hn; omega
+        have hn2 : needRest xs ≤ f := by simp [needRest] at hn; omega
+        let rest' := renderRest c l xs ++ (g ++ 0x5d :: rest)
+        have hs : renderRest c l (x :: xs) ++ (g ++ 0x5d :: rest)
+            = 0x2c :: (gap c l ++ (render c l x ++ rest')) := by
+          simp [renderRest, rest', List.append_assoc]
+        have h1 : pValue false f (skipWs (gap c l ++ (render c l x ++ rest'))) = .ok (norm (mapNum c.fmt x), rest') := by
+          rw [skipWs_gap c hu, skipWs_render c hf _ x hwf.1]
+          exact pValue_render c hu hf x l f rest' hwf.1 hn1 (tailOK_rest c _ xs _ hg rest)
+        have h2 := pRest_render c hu hf xs l f g rest hwf.2 hn2 hg
+        rw [hs]
+        simp only [mapNumList, normList]
+        exact pRest_comma f _ _ _ _ _ _ (skipWs_cons_nonws _ _ (by decide)) h1 h2
+  theorem pFields_render (c : Cfg) (hu : c.unit.all isWs = true) (hf : FmtOK c) :
+      ∀ (fs : List (Str × V)) (l f : Nat) (g rest : Bytes), wfFields fs = true → needFields fs ≤ f → g.all isWs = true →
+        pFields false f (renderFields c l fs ++ (g ++ 0x7d :: rest)) = .ok (normFields (mapNumFields c.fmt fs), rest)
+    | [], l, f, g, rest, _, hn, hg => by
+      cases f with
+      | zero => simp [needFields] at hn
+      | succ f =>
+        simp only [renderFields, List.nil_append, mapNumFields, normFields]
+        exact pFields_close f _ rest (by rw [skipWs_append_ws g _ hg]; exact skipWs_cons_nonws _ _ (by decide))
+    | (k, x) :: fs, l, f, g, rest, hv, hn, hg => by
+      cases f with
+      | zero => simp [needFields] at hn
+      | succ f =>
+        cases f with
+        | zero => simp [needFields] at hn; omega
+        | succ f' =>
+          have hwf : (k.wf = true ∧ x.wf = true) ∧ wfFields fs = true := by simpa [wfFields] using hv
+          have hn1 : need x ≤ f' := by simp [needFields] at hn; omega
+          have hn2 : needFields fs ≤ f' + 1 := by simp [needFields] at hn; omega
+          let rest' := renderFields c l fs ++ (g ++ 0x7d :: rest)
+          have hx := pValue_render c hu hf x l f' rest' hwf.1.2 hn1 (tailOK_fields c _ fs _ hg rest)
+          obtain ⟨b1, t, hbt, _, hws, hfield⟩ := pField_render c hf f' k hwf.1.1 x hwf.1.2 l rest' _ hx
+          have hs : renderFields c l ((k, x) :: fs) ++ (g ++ 0x7d :: rest)
+              = 0x2c :: (gap c l ++ (strBytes c k ++ (colon c ++ (render c l x ++ rest')))) := by
+            simp [renderFields, rest', List.append_assoc]
+          have h1 : pField false (f' + 1) (skipWs (gap c l ++ (strBytes c k ++ (colon c ++ (render c l x ++ rest')))))
+              = .ok ((⟨k.cs, false⟩, norm (mapNum c.fmt x)), rest') := by
+            rw [skipWs_gap c hu, hbt, skipWs_cons_nonws b1 t hws]; exact hfield
+          have h2 := pFields_render c hu hf fs l (f' + 1) g rest hwf.2 hn2 hg
+          rw [hs]
+          simp only [mapNumFields, normFields]
+          exact pFields_comma (f' + 1) _ _ _ _ _ _ (skipWs_cons_nonws _ _ (by decide)) h1 h2
+end
+
+
+
+theorem colon_len (c : Cfg) : 1 ≤ (colon c).length := by unfold colon; split <;> simp
+theorem strBytes_len (c : Cfg) (k : Str) : 1 ≤ (strBytes c k).length := by unfold strBytes; split <;> simp
+
+mutual
+  theorem need_le_len (c : Cfg) (hf : FmtOK c) : ∀ (v : V) (lvl : Nat), v.wf = true → need v ≤ (render c lvl v).length
+    | .null, _, _ => by simp [need, render]
+    | .bool b, _, _ => by cases b <;> simp [need, render]
+    | .num l, _, hv => by
+      obtain ⟨b, t, h, _⟩ := validNum_cons _ (hf l (by simpa [V.wf] using hv))
+      simp [need, render, h]
+    | .str s, _, _ => by simpa [need, render] using strBytes_len c s
+    | .arr [], _, _ => by simp [need, render]
+    | .obj [], _, _ => by simp [need, render]
+    | .arr (x :: xs), lvl, hv => by
+      have hwf : x.wf = true ∧ wfList xs = true := by simpa [V.wf, wfList] using hv
+      have h1 := need_le_len c hf x (lvl + 1) hwf.1
+      have h2 := needRest_le_len c hf xs (lvl + 1) hwf.2
+      simp only [need, render, List.length_cons, List.length_append, List.length_nil]
+      omega
+    | .obj ((k, x) :: fs), lvl, hv => by
+      have hwf : (k.wf = true ∧ x.wf = true) ∧ wfFields fs = true := by simpa [V.wf, wfFields] using hv
+      have h1 := need_le_len c hf x (lvl + 1) hwf.1.2
+      have h2 := needFields_le_len c hf fs (lvl + 1) hwf.2
+      have h3 := colon_len c
+      have h4 := strBytes_len c k
+      simp only [need, render, List.length_cons, List.length_append, List.length_nil]
+      omega
+  theorem needRest_le_len (c : Cfg) (hf : FmtOK c) :
+      ∀ (xs : List V) (lvl : Nat), wfList xs = true → needRest xs ≤ (renderRest c lvl xs).length + 1
+    | [], _, _ => by simp [needRest, renderRest]
+    | x :: xs, lvl, hv => by
+      have hwf : x.wf = true ∧ wfList xs = true := by simpa [wfList] using hv
+      have h1 := need_le_len c hf x lvl hwf.1
+      have h2 := needRest_le_len c hf xs lvl hwf.2
+      simp only [needRest, renderRest, List.length_cons, List.length_append]
+      omega
+  theorem needFields_le_len (c : Cfg) (hf : FmtOK c) :
+      ∀ (fs : List (Str × V)) (lvl : Nat), wfFields fs = true → needFields fs ≤ (renderFields c lvl fs).length + 1
+    | [], _, _ => by simp [needFields, renderFields]
+    | (k, x) :: fs, lvl, hv => by
+      have hwf : (k.wf = true ∧ x.wf = true) ∧ wfFields fs = true := by simpa [wfFields] using hv
+      have h1 := need_le_len c hf x lvl hwf.1.2
+      have h2 := needFields_le_len c hf fs lvl hwf.2
+      have h3 := colon_len c
+      have h4 := strBytes_len c k
+      simp only [needFields, renderFields, List.length_cons, List.length_append]
+      omega
+end
+
+theorem skipWs_all_ws (w : Bytes) (h : w.all isWs = true) : skipWs w = [] := by
+  have := skipWs_append_ws w [] h
+  simpa [skipWs] using this
+
+theorem tailOK_ws (w : Bytes) (h : w.all isWs = true) : TailOK w := by
+  intro b r hbr
+  subst hbr
+  simp only [List.all_cons, Bool.and_eq_true] at h
+  cases hn : isNumChar b with
+  | false => rfl
+  | true => have := numChar_not_ws b hn; rw [h.1] at this; cases this
+
+/-- The reference reader applied to a printed value followed by whitespace returns the value
+(numbers re-spelled by the printer's `fmt`, spelling bits forgotten). -/
+theorem read_render (c : Cfg) (hu : c.unit.all isWs = true) (hf : FmtOK c) (v : V) (hv : v.wf = true)
+    (lvl : Nat) (w : Bytes) (hw : w.all isWs = true) :
+    read (render c lvl v ++ w) = .ok (norm (mapNum c.fmt v)) := by
+  unfold read readWith
+  rw [skipWs_render c hf lvl v hv]
+  have hfuel : need v ≤ (render c lvl v ++ w).length + 1 := by
+    have := need_le_len c hf v lvl hv
+    simp only [List.length_append]; omega
+  rw [pValue_render c hu hf v lvl _ w hv hfuel (tailOK_ws w hw)]
+  simp [skipWs_all_ws w hw]
+
+
 end SV.JqOut
